@@ -995,6 +995,30 @@ def kerninit_exec(run, fx):
     run.held('GROWTH', inst, fn.where(), '%d margin / height combinations' % cases)
 
 
+def _counts_up(fn, vid, K):
+    """the local is initialised with a constant in 0..K and otherwise only written by ++ / += 1"""
+    init_ok, other = False, False
+    for _, e in fn.elements():
+        if e['k'] == 'DeclStmt':
+            for d in e.get('decls', []):
+                if d.get('vid') == vid:
+                    v = fn.strip_all_casts(fn.N(d['init'])).get('v') if d.get('init') is not None else None
+                    init_ok = isinstance(v, int) and 0 <= v <= K
+        elif e['k'] == 'UnaryOperator' and e.get('op') in ('++', 'pre++', 'post++', '++pre', '++post') and fn.strip_all_casts(fn.N(e['c'][0])).get('vid') == vid:
+            continue
+        elif e['k'] in ('BinaryOperator', 'CompoundAssignOperator', 'UnaryOperator') and e.get('c') and fn.strip_all_casts(fn.N(e['c'][0])).get('vid') == vid:
+            if e['k'] == 'CompoundAssignOperator' and e.get('op') == '+=' and fn.strip_all_casts(fn.N(e['c'][1])).get('v') == 1:
+                continue
+            if e['k'] == 'UnaryOperator' and '++' in (e.get('op') or ''):
+                continue
+            if e['k'] == 'BinaryOperator' and e.get('op') != '=':
+                continue
+            if e['k'] == 'UnaryOperator' and '--' not in (e.get('op') or '') and e.get('op') != '&':
+                continue
+            other = True
+    return init_ok and not other
+
+
 def localarrays(run, fx, rule='CONST'):
     """no fixed-size LOCAL array is indexed by a value the font controls: every subscript of a local `T a[N]` with a non-constant index
     is dominated by a comparison of that index with a constant <= N (expected number of such subscripts on the pinned tree: none -- the
@@ -1026,6 +1050,8 @@ def localarrays(run, fx, rule='CONST'):
                     k_ = int(f[2])
                     if (f[1] == '<' and k_ <= N) or (f[1] == '<=' and k_ < N) or (f[1] == '==' and 0 <= k_ < N):
                         ok = True
+                    if f[1] == '!=' and 0 <= k_ <= N and ix.get('k') == 'DeclRefExpr' and ix.get('vid') is not None and _counts_up(fn, ix['vid'], k_):
+                        ok = True           # `for (i = c0; i != K; ++i)`: a counter that starts at or below K and only ever goes up by one
             if not ok:
                 bad = bad or (fn, e, b, N, it_)
     inst = 'no fixed-size local array is indexed without a constant bound'
